@@ -930,7 +930,7 @@ impl Database {
         let columns = table_def.columns().to_vec();
         let has_toast = table_def.has_toast();
 
-        let secondary_indexes: Vec<(String, Vec<usize>)> = table_def
+        let secondary_indexes: Vec<(String, Vec<usize>, bool)> = table_def
             .indexes()
             .iter()
             .filter(|idx| idx.index_type() == IndexType::BTree)
@@ -939,7 +939,7 @@ impl Database {
                     .columns()
                     .filter_map(|col_name| columns.iter().position(|c| c.name() == col_name))
                     .collect();
-                (idx.name().to_string(), col_indices)
+                (idx.name().to_string(), col_indices, idx.is_unique())
             })
             .collect();
 
@@ -1300,7 +1300,7 @@ impl Database {
 
         let needs_old_row_for_secondary_index = secondary_indexes
             .iter()
-            .any(|(_, col_indices)| col_indices.iter().any(|idx| modified_col_indices.contains(idx)));
+            .any(|(_, col_indices, _)| col_indices.iter().any(|idx| modified_col_indices.contains(idx)));
 
         let unique_col_indices: Vec<usize> = columns
             .iter()
@@ -1775,7 +1775,7 @@ impl Database {
 
                 let mut index_btree = BTree::new(&mut *index_storage, index_root_page)?;
 
-                for (_row_key, _old_value, new_row_values, old_row_values, _old_toast) in
+                for (row_key, _old_value, new_row_values, old_row_values, _old_toast) in
                     &rows_to_update
                 {
                     if let Some(old_value) = old_row_values.get(*col_idx) {
@@ -1790,23 +1790,21 @@ impl Database {
                         if !new_value.is_null() {
                             key_buf.clear();
                             Self::encode_value_as_key(new_value, &mut key_buf);
-                            if let Some(pk_idx) = columns
-                                .iter()
-                                .position(|c| c.has_constraint(&Constraint::PrimaryKey))
-                            {
-                                if let Some(OwnedValue::Int(pk_val)) = new_row_values.get(pk_idx) {
-                                    let row_id_bytes = (*pk_val as u64).to_be_bytes();
-                                    let _ = index_btree.insert(&key_buf, &row_id_bytes);
-                                }
-                            }
+                            // index entries point at the row's key in the table B-tree (as
+                            // INSERT writes them), which is not the primary-key value
+                            let _ = index_btree.insert(&key_buf, row_key);
                         }
                     }
                 }
             }
         }
 
-        for (index_name, col_indices) in &secondary_indexes {
+        for (index_name, col_indices, is_unique) in &secondary_indexes {
             if col_indices.is_empty() {
+                continue;
+            }
+            // single-column unique / primary-key indexes were maintained above
+            if *is_unique && col_indices.len() == 1 && unique_col_indices.contains(&col_indices[0]) {
                 continue;
             }
             let any_modified = col_indices
@@ -1828,19 +1826,25 @@ impl Database {
 
                 let mut index_btree = BTree::new(&mut *index_storage, index_root_page)?;
 
-                for (_row_key, _old_value, new_row_values, old_row_values, _old_toast) in
+                // Same entry layout as INSERT: a unique index maps the encoded columns to the
+                // row key and skips NULL-bearing keys; a non-unique index encodes every value
+                // (NULLs included), appends the row key to the index key and stores the row key.
+                for (row_key, _old_value, new_row_values, old_row_values, _old_toast) in
                     &rows_to_update
                 {
                     let old_all_non_null = col_indices
                         .iter()
                         .all(|&idx| old_row_values.get(idx).is_some_and(|v| !v.is_null()));
 
-                    if old_all_non_null {
+                    if old_all_non_null || !*is_unique {
                         key_buf.clear();
                         for &col_idx in col_indices {
                             if let Some(value) = old_row_values.get(col_idx) {
                                 Self::encode_value_as_key(value, &mut key_buf);
                             }
+                        }
+                        if !*is_unique {
+                            key_buf.extend_from_slice(row_key);
                         }
                         let _ = index_btree.delete(&key_buf);
                     }
@@ -1849,22 +1853,17 @@ impl Database {
                         .iter()
                         .all(|&idx| new_row_values.get(idx).is_some_and(|v| !v.is_null()));
 
-                    if new_all_non_null {
+                    if new_all_non_null || !*is_unique {
                         key_buf.clear();
                         for &col_idx in col_indices {
                             if let Some(value) = new_row_values.get(col_idx) {
                                 Self::encode_value_as_key(value, &mut key_buf);
                             }
                         }
-                        if let Some(pk_idx) = columns
-                            .iter()
-                            .position(|c| c.has_constraint(&Constraint::PrimaryKey))
-                        {
-                            if let Some(OwnedValue::Int(pk_val)) = new_row_values.get(pk_idx) {
-                                let row_id_bytes = (*pk_val as u64).to_be_bytes();
-                                let _ = index_btree.insert(&key_buf, &row_id_bytes);
-                            }
+                        if !*is_unique {
+                            key_buf.extend_from_slice(row_key);
                         }
+                        let _ = index_btree.insert(&key_buf, row_key);
                     }
                 }
             }
